@@ -15,6 +15,7 @@ R10.7 finalize feeds the carried partial block to the murmur block / tail functi
 R10.8 block loops keep their accumulators: in the stitched block functions no state word (murmur state, digest) is
       re-loaded from memory in every loop iteration, left unwritten inside the loop, and written back from a
       loop-computed register only after it (all iterations but the last would be lost).
+R10.9 the stitched block functions read the input only within [0, 1024 * num_blocks) (length skeleton, 1..3 blocks).
 R10.4 every block implementation (the four stitched assembly functions and the scalar C block function) carries
       MurmurHash3_x64_128's block constants c1, c2, 0x52dce729, 0x38495ab5; the unit with the tail / finalisation
       carries the two fmix64 multipliers; the stitched SHA-1 halves carry the standard SHA-1 round constants and
@@ -228,6 +229,8 @@ def run(chk):
     chk.floor("update functions", nu, 5)
     seed_rule(chk, {k: v for k, v in mods.items() if k.startswith(DIR + "/")})
     tail_order_rule(chk, mods)
+    nbb = mhrules.block_bounds(chk, "R10.9", lib, {k: v for k, v in mods.items() if k.startswith(DIR + "/")}, "_mh_sha1_murmur3_x64_128_block")
+    chk.floor("stitched block functions followed on the length skeleton", nbb, 4)
     nls = mhrules.loop_state_rule(chk, "R10.8", lib, r"^_mh_sha1_murmur3_x64_128_block_\w+$")
     chk.floor("stitched block functions with loops checked for accumulator discipline", nls, 4)
     mhrules.bit_length_width(chk, "R10.5", {k: v for k, v in mods.items() if k.startswith(DIR + "/")})
